@@ -301,3 +301,32 @@ def c16_r5(ctx):
         if fmt:
             good = good and all(".type_map_variable_name" in e[0].split("type_map_name=")[1][:90] and ".schema_variable_name" in e[0].split("schema_variable_name=")[1][:90] for e in effs)
         ctx.check(good, key(m, f"format py={fmt}"), f"main.graphql_schema with py={fmt} calls {effs}", m.loc(), okmsg=f"target format py={fmt} -> {fn} with the configured names")
+
+
+@rule("C16.R7", "the schema target and everything read back as GraphQL text use UTF-8, stated explicitly", min_instances=4, also=["C19", "C10"])
+def c16_r7(ctx):
+    repo = ctx.repo
+
+    def utf8(v):
+        return isinstance(v, ast.Constant) and isinstance(v.value, str) and v.value.lower().replace("-", "").replace("_", "") == "utf8"
+    sites = [(GS + "schema:generate_graphql_schema_graphql_file", "write_text", "the SDL target does not parse back (or parses to other text) for non-ASCII descriptions / default values"),
+             (GS + "schema:generate_graphql_schema_python_file", "write_text", "the schema module is not valid UTF-8 source for non-ASCII descriptions (PEP 3120: source files are UTF-8)"),
+             ("schema:read_graphql_file", "open", "schema / query files are decoded with the locale's encoding"),
+             ("contrib.extract_operations:ExtractOperationsPlugin._generate_operations_module", "write_text", "the operations module is not valid UTF-8 source")]
+    for fk, meth, why in sites:
+        fi = repo.func(fk)
+        cs = [c for c in walk_no_nested(fi.node) if isinstance(c, ast.Call) and ((isinstance(c.func, ast.Attribute) and c.func.attr in (meth, "open", "write_text", "read_text")) or (isinstance(c.func, ast.Name) and c.func.id == "open"))]
+        if not cs:
+            raise AnalysisError(f"{fk}: no {meth} call found")
+        for c in cs:
+            enc = next((k.value for k in c.keywords if k.arg == "encoding"), None)
+            if enc is None and isinstance(c.func, ast.Name) and len(c.args) >= 4:
+                enc = c.args[3]
+            if enc is None and isinstance(c.func, ast.Attribute) and c.func.attr in ("write_text", "read_text") and len(c.args) >= (2 if c.func.attr == "write_text" else 1):
+                enc = c.args[1 if c.func.attr == "write_text" else 0]
+            mode = next((k.value for k in c.keywords if k.arg == "mode"), c.args[1] if isinstance(c.func, ast.Name) and len(c.args) > 1 else None)
+            if isinstance(mode, ast.Constant) and isinstance(mode.value, str) and "b" in mode.value:
+                ctx.ok(f"{fi.qualname}: binary I/O", fi.loc(c))
+                continue
+            ctx.check(utf8(enc), key(fi, f"{meth} encoding"), f"{norm(c)[:90]}: encoding is {norm(enc) if enc is not None else 'the platform default'}, not UTF-8: {why}", fi.loc(c),
+                      okmsg=f"{fi.qualname}: {meth}(encoding=utf-8)")
